@@ -96,6 +96,9 @@ FINDING_IDS = {
     "alpha_reversed": "F-C15-alpha-reversed",
     "identity_exp": "F-C15-identity-exp",
     "constdiag_solve_triangular": "F-C15-constdiag-solve-triangular",
+    "svd_added_diag_singular": "F-C15-svd-added-diag-singular-base",
+    "diag_solve_triangular_left": "F-C15-diag-solve-triangular-left",
+    "identity_mul_matrix": "F-C15-identity-mul-matrix",
     "isclose_reversed_rtol": "F-C15-isclose-reversed-rtol",
     "diagonal_args_ignored": "F-C15-diagonal-args-ignored",
     "explog_offdiag": "F-C15-exp-log-offdiagonal",
@@ -259,9 +262,11 @@ def g_unary(draw, name, order, depth):
 def g_arith(draw, name, order, depth):
     b = short(name)
     form = draw(st.sampled_from(_forms(name, order)))
-    kinds = ["tensor", "tensor", "scalar"]
+    kinds = ["tensor", "tensor", "tensor", "tensor"]
     if b in ("mul", "div"):
-        kinds += ["tensor0", "scalar"]
+        kinds += ["tensor0", "scalar", "scalar"]
+    elif draw(st.integers(0, 1)):
+        kinds += ["scalar"]  # (op + number raises TypeError in SumLinearOperator: kept as a thin, labelled cell)
     if order == "first" and b != "div":
         kinds += ["op", "op"]
     kind = draw(st.sampled_from(kinds))
@@ -300,7 +305,15 @@ def g_arith(draw, name, order, depth):
             other = {"k": "tensor", "t": _tensor_like(draw, tshape, dt, 1 if b == "div" else -16, 16, nonzero=(b == "div"))}
             if b == "div" and draw(st.booleans()):
                 other["t"]["lit"] = gen._map2(other["t"]["lit"], lambda v: -v)
-    if b in ("add", "sub") and form in ("func", "tmethod") and draw(st.integers(0, 2)) == 0:
+    if b == "sub" and kind == "op" and r["op"] == "Root" and other["recipe"]["op"] in ("Chol", "LowRankRoot"):
+        # Root - <Root subclass instance> is served by the subclass' __rsub__ = (-b) + a, i.e. add_low_rank on a negative
+        # definite left operand: the PSD-left-operand precondition of `+ RootLinearOperator` is C02's domain
+        shp = refmodel.shape(other["recipe"])
+        other = {"k": "op", "recipe": _recipe_of(draw, "psd", shp[-1], shp[-1], shp[:-2], R.dtype_of(r), 1, head="Dense")}
+    if is_open("identity_mul_matrix") and _t_identity_mul({"kind": "reg", "fn": name, "recipe": r, "other": other}):
+        shp = refmodel.shape(r)
+        r = _recipe_of(draw, "any", shp[-1], shp[-1], shp[:-2], R.dtype_of(r), 1, head="Diag")
+    if b in ("add", "sub") and form in ("func", "tmethod") and draw(st.integers(0, 7 if name.startswith("torch.Tensor.") else 2)) == 0:
         kw["alpha"] = draw(st.sampled_from([2, -1, 0.5, 3]))
         if is_open("alpha_reversed") and _t_alpha({"kind": "reg", "fn": name, "order": order, "other": other, "kw": kw}):
             kw = {}
@@ -439,12 +452,15 @@ def g_plain(draw, name, order, depth):
 NO_MUL = ("Mul",)  # elementwise products of operators are *defined* through (jittered) root decompositions: C02/C06
 
 
-def _pd_op(draw, depth, psd_ok=False, tri=True):
+ADDED_DIAG = ("AddedDiag", "LowRankRootAddedDiag", "KroneckerAddedDiag")
+
+
+def _pd_op(draw, depth, psd_ok=False, tri=True, extra=()):
     u = draw(st.integers(0, 9))
     if tri and u == 0:
-        return _op(draw, draw(st.sampled_from(["tril+", "triu+"])), depth, heads=TRI_HEADS + ["Diag"], max_dim=4, extra=NO_MUL)
+        return _op(draw, draw(st.sampled_from(["tril+", "triu+"])), depth, heads=TRI_HEADS + ["Diag"], max_dim=4, extra=NO_MUL + tuple(extra))
     dom = "psd" if (psd_ok and u < 5) else "pd"
-    return _op(draw, dom, depth, max_dim=4, extra=NO_MUL)
+    return _op(draw, dom, depth, max_dim=4, extra=NO_MUL + tuple(extra))
 
 
 def g_direct(draw, name, order, depth):
@@ -458,7 +474,8 @@ def g_direct(draw, name, order, depth):
             if u:
                 kw["upper"] = u == 2
     elif fam in ("eigh", "eigvalsh", "svd"):
-        r = _pd_op(draw, depth, psd_ok=True, tri=False)
+        ex = ADDED_DIAG if (fam == "svd" and is_open("svd_added_diag_singular")) else ()
+        r = _pd_op(draw, depth, psd_ok=True, tri=False, extra=ex)
     elif fam == "solve":
         r = _pd_op(draw, depth)
     elif fam == "solve_triangular":
@@ -473,6 +490,8 @@ def g_direct(draw, name, order, depth):
         kw["upper"] = bool(up)
         if draw(st.integers(0, 7)) == 0:
             kw["left"] = False
+            if is_open("diag_solve_triangular_left") and _t_diag_left({"kind": "reg", "fn": name, "recipe": r, "kw": kw}):
+                del kw["left"]
     elif fam == "inverse":
         u = draw(st.integers(0, 9))
         if u < 4:
@@ -725,7 +744,11 @@ def _cmp(lib, ref, bound, what):
             raise _Bad("nan", "%s: non-finite values differ" % what)
     if not torch.is_tensor(bound):
         bound = torch.full_like(ref, float(bound))
-    bound = bound.expand_as(ref) if bound.shape != ref.shape else bound
+    if bound.shape != ref.shape:
+        try:
+            bound = bound.expand_as(ref)
+        except RuntimeError:  # (leg 1 compares two library results whose common shape differs from the reference's)
+            bound = torch.full_like(ref, float(bound.max()) if bound.numel() else 0.0)
     diff = torch.where(fin, (lib - ref).abs(), torch.zeros_like(ref))
     ratio = diff / (bound + tol.TINY)
     i = int(torch.argmax(ratio.reshape(-1)))
@@ -1375,6 +1398,26 @@ def _t_diagonal(case):
     return af in ("offset_posdims", "batchdims") or (af == "default" and len(refmodel.shape(case["recipe"])) > 2)
 
 
+def _t_diag_left(case):
+    if case.get("kind") != "reg" or short(case["fn"]) != "solve_triangular" or case.get("kw", {}).get("left", True):
+        return False
+    r = case["recipe"]
+    return gen.is_diag_instance(r) and r["op"] not in ("ConstantDiag", "Identity")
+
+
+def _t_identity_mul(case):
+    if case.get("kind") != "reg" or short(case["fn"]) not in ("mul", "div") or case["recipe"]["op"] != "Identity":
+        return False
+    o = case.get("other") or {}
+    if o.get("k") == "op":
+        return True
+    return o.get("k") == "tensor" and int(torch.Size(L.shape_of(o["t"])).numel()) > 1
+
+
+def _t_svd(case):
+    return case.get("kind") == "reg" and short(case["fn"]).endswith("svd") and any(n["op"] in ADDED_DIAG for n in R.walk(case["recipe"]))
+
+
 def _t_explog(case):
     return case.get("kind") == "reg" and short(case["fn"]) in ("exp", "log") and not case.get("kw", {}).get("support_only")
 
@@ -1383,6 +1426,9 @@ TRIGGERS = {
     "alpha_reversed": _t_alpha,
     "identity_exp": _t_identity_exp,
     "constdiag_solve_triangular": _t_constdiag,
+    "svd_added_diag_singular": _t_svd,
+    "diag_solve_triangular_left": _t_diag_left,
+    "identity_mul_matrix": _t_identity_mul,
     "isclose_reversed_rtol": _t_isclose,
     "diagonal_args_ignored": _t_diagonal,
     "explog_offdiag": _t_explog,
